@@ -320,7 +320,7 @@ class Run:
                     break
                 if any(t is not None and not t.done() for t in tasks):
                     # a call is blocked although nothing is pending: it waits for a reply it never asked for
-                    await vnet.settle(6)
+                    await vnet.settle(40)      # generous: an operation may take further loop cycles between its steps
                     if not pending and self.net.queue.empty() and not any(t is not None and t.done() for t in tasks):
                         for k, t in enumerate(tasks):
                             if t is not None:
